@@ -68,6 +68,7 @@ func startServer(c *vf.Ctx, worker int) (*proc.Server, error) {
 		s.Kill()
 		return nil, err
 	}
+	s.HTTP.Timeout = 60 * time.Second
 	if _, err := s.Query("", "CREATE DATABASE "+db, nil); err != nil {
 		s.Kill()
 		return nil, fmt.Errorf("create database: %v", err)
@@ -179,6 +180,7 @@ type runner struct {
 	mu        sync.Mutex
 	expected  map[string]bool // measurement names that may exist
 	gone      map[string]bool // line ids already reported as not readable
+	seen      map[string]bool // line ids found stored before the flush
 }
 
 func parallel(n, workers int, f func(i int)) {
@@ -245,12 +247,15 @@ func (r *runner) waitSentinel(id string) {
 
 func run(c *vf.Ctx, s *proc.Server, batches []*Batch) {
 	t0 := time.Now()
+	phases := map[string]float64{}
 	lap := func(what string) {
+		phases[what] = float64(int(time.Since(t0).Seconds()*10)) / 10
+		c.Extra("phase_done_at_seconds", phases)
 		if debug {
 			fmt.Printf("PHASE %s done at %.1fs\n", what, time.Since(t0).Seconds())
 		}
 	}
-	r := &runner{c: c, s: s, expected: map[string]bool{sentinelMeas: true}, gone: map[string]bool{}}
+	r := &runner{c: c, s: s, expected: map[string]bool{sentinelMeas: true}, gone: map[string]bool{}, seen: map[string]bool{}}
 	for _, b := range batches {
 		r.expected[b.Meas] = true
 		for i := range b.Lines {
@@ -260,7 +265,7 @@ func run(c *vf.Ctx, s *proc.Server, batches []*Batch) {
 		}
 	}
 	// phase 1: all writes
-	parallel(len(batches), 4, func(i int) { r.write(batches[i]) })
+	parallel(len(batches), 8, func(i int) { r.write(batches[i]) })
 	if !s.Alive() {
 		c.Violation("server-died:during-writes", "ts-server exited while line protocol was being written", map[string]any{"log": s.StdoutTail(4000)})
 		return
@@ -303,34 +308,40 @@ func run(c *vf.Ctx, s *proc.Server, batches []*Batch) {
 		if idle < 11*time.Second {
 			time.Sleep(11*time.Second - idle)
 		}
-		for i, d := range deferred {
-			if len(d) == 0 {
-				continue
+		// idle for more than 10 s now; two more looks cost little and keep a starved
+		// machine from turning lag into a verdict
+		final := make([]*verdict, len(batches))
+		for round := 0; round < 3; round++ {
+			parallel(len(batches), 8, func(i int) {
+				if len(deferred[i]) == 0 || final[i] != nil && len(final[i].missing) == 0 {
+					return
+				}
+				only := map[string]bool{}
+				for _, ln := range deferred[i] {
+					only[ln.ID] = true
+				}
+				final[i] = r.evaluate(batches[i], only, false)
+			})
+			still := 0
+			for _, v := range final {
+				if v != nil {
+					still += len(v.missing)
+				}
 			}
-			b := batches[i]
-			only := map[string]bool{}
-			for _, ln := range d {
-				only[ln.ID] = true
+			if still == 0 {
+				break
 			}
-			v := r.evaluate(b, only, false)
-			// idle for more than 10 s already; a few more looks cost nothing and keep a
-			// starved machine from turning lag into a verdict
-			for try := 0; try < 5 && v != nil && len(v.missing) > 0; try++ {
-				time.Sleep(4 * time.Second)
-				v = r.evaluate(b, only, false)
+			if round < 2 {
+				time.Sleep(3 * time.Second)
 			}
+		}
+		for i, v := range final {
 			if v == nil {
 				continue
 			}
+			b := batches[i]
 			for _, ln := range v.missing {
-				r.gone[ln.ID] = true
-				c.Eval(1)
-				cat := ln.Why
-				if cat == "" {
-					cat = mainCat(ln, "")
-				}
-				c.Violation("accepted-not-readable:"+cat, fmt.Sprintf("request answered 204, line %q is not returned by a query after the server has been idle for >10 s", ln.Text),
-					&witness{b, ln.ID, "memtable"})
+				r.notReadable(b, ln, "memtable")
 			}
 			v.missing = nil
 			r.commit(b, v, "memtable", true, false)
@@ -359,8 +370,16 @@ func run(c *vf.Ctx, s *proc.Server, batches []*Batch) {
 			return
 		}
 		for _, ln := range v.missing {
-			if !r.gone[ln.ID] {
+			r.mu.Lock()
+			gone, seen := r.gone[ln.ID], r.seen[ln.ID]
+			r.mu.Unlock()
+			switch {
+			case gone:
+			case seen:
 				c.Violation("lost-after-flush:"+mainCat(ln, ""), fmt.Sprintf("line %q was readable before the flush and is not returned after it", ln.Text), &witness{b, ln.ID, "flushed"})
+			default:
+				// never judged before the flush (its measurement could not be queried then)
+				r.notReadable(b, ln, "flushed")
 			}
 		}
 		r.commit(b, v, "flushed", false, false)
@@ -372,6 +391,22 @@ func run(c *vf.Ctx, s *proc.Server, batches []*Batch) {
 }
 
 var debug = os.Getenv("C06_DEBUG") != ""
+
+// notReadable reports a line of a request answered 204 that no query returns although the
+// server has had no write for more than 10 s.
+func (r *runner) notReadable(b *Batch, ln *Line, pass string) {
+	r.mu.Lock()
+	r.gone[ln.ID] = true
+	r.mu.Unlock()
+	cat := ln.Why
+	if cat == "" {
+		cat = mainCat(ln, "")
+	}
+	r.c.Eval(1)
+	countCats(r.c, ln, "judged-with-finding")
+	r.c.Violation("accepted-not-readable:"+cat, fmt.Sprintf("[%s] request answered 204, line %q is not returned by a query after the server has been idle for >10 s", pass, ln.Text),
+		&witness{b, ln.ID, pass})
+}
 
 type finding struct {
 	sig, what string
@@ -387,6 +422,7 @@ type verdict struct {
 	unverified []*Line
 	counts     map[string]int64
 	types      []finding
+	present    []string // ids of lines found stored
 }
 
 // evaluate queries every measurement of the batch and judges each line (only those in
@@ -469,6 +505,9 @@ func (r *runner) evaluate(b *Batch, only map[string]bool, reqLevel bool) *verdic
 			continue
 		}
 		got := present[ln.ID]
+		if len(got) > 0 {
+			v.present = append(v.present, ln.ID)
+		}
 		silent := func() {
 			if laterTaken[i] {
 				v.findings = append(v.findings, finding{"refused-silently-204:later-line-taken:nothing-stored",
@@ -639,6 +678,11 @@ func (r *runner) commit(b *Batch, v *verdict, pass string, first, reqLevel bool)
 	if !first {
 		return
 	}
+	r.mu.Lock()
+	for _, id := range v.present {
+		r.seen[id] = true
+	}
+	r.mu.Unlock()
 	for k, n := range v.counts {
 		if strings.HasPrefix(k, "inconclusive:") {
 			c.Inconclusive(strings.TrimPrefix(k, "inconclusive:"), n)
